@@ -30,7 +30,7 @@ CHECKS = {
    design_ref="DESIGN.md §5 C03"),
 
  "C09": dict(engine="schedx", level="model_checking",
-   text="Stateless CHESS-style schedule exploration of the real client auto-merge code (default AutoMerge/RemoteSyncHandler methods over a real LocalAccount) against a real in-process server: one execute_sync call per device, a gate at every protocol request (exists, status, sync, scan, diff, patch, ...) inside the harness's SyncClient wrapper; deviation-bounded DFS over choice vectors (preemption bound 2 quick / 4 thorough) for pre-histories {one ahead, soft conflict equal/unequal length, same secret edited on both, both rename; thorough: no divergence and three devices}. Per step: the server's logs never lose an event they held, read requests change nothing; per execution: every sync call ends (no deadlock, no horizon overflow), no event the server ever held is absent at the end, and three further sequential rounds converge.",
+   text="Stateless CHESS-style schedule exploration of the real client auto-merge code (default AutoMerge/RemoteSyncHandler methods over a real LocalAccount) against a real in-process server: one execute_sync call per device, a gate at every protocol request (exists, status, sync, scan, diff, patch, ...) inside the harness's SyncClient wrapper; deviation-bounded DFS over choice vectors (preemption bound 2 quick / 4 thorough) for pre-histories {one ahead, soft conflict equal/unequal length, same secret edited on both, three devices, hard conflict (one device compacted the folder after an update while the other appended to the old history); thorough adds: no divergence, both rename, hard conflict through a folder password change}. Per step: the server's logs never lose an event they held (except the folder log a device rewrote on purpose in the hard-conflict pre-histories), read requests change nothing; per execution: every sync call ends (no deadlock, no horizon overflow), no event the server ever held is absent at the end, three further sequential rounds converge, and a server restarted on the same storage holds exactly the logs the live server held.",
    note="Scheduling points are protocol requests (sound for devices that share only the server; the server handles one request at a time in the harness); interleavings inside one handler are not explored; replayed prefixes must reproduce (divergence is a machinery error).",
    technique="stateless deviation-bounded (preemption-bounded) DFS over request-level interleavings of real concurrent sync calls",
    design_ref="DESIGN.md §5 C09"),
